@@ -3,6 +3,7 @@
 #include <QTcpSocket>
 #include <QObject>
 #include <qhttpengine/socket.h>
+#include <functional>
 #include "val.h"
 
 class SlotReceiver : public QObject
@@ -10,8 +11,12 @@ class SlotReceiver : public QObject
     Q_OBJECT
 public:
     explicit SlotReceiver(Val *log) : mLog(log) {}
+    // family sloti: the log of the connection whose socket the slot was handed (null: none of them - logged as a note of its own)
+    std::function<Val *(QHttpEngine::Socket *)> route;
     void hit(int id, QHttpEngine::Socket *s)
     {
+        Val *mLog = this->mLog;
+        if (route) { Val *l = route(s); if (l) mLog = l; else { this->mLog->add(Val::List({Val::Int(30), Val::List({Val::Int(41), Val::Int(id)})})); return; } }
         mLog->add(Val::List({Val::Int(30), Val::List({Val::Int(40), Val::Int(id)})}));
         mLog->add(Val::List({Val::Int(7), Val::Int((s && s->isOpen()) ? s->bytesAvailable() : -1)}));
     }
